@@ -160,7 +160,7 @@ from .protocol import (
     symref_capabilities,
     write_info_refs,
 )
-from .refs import Ref, RefsContainer
+from .refs import HEADREF, Ref, RefsContainer, check_ref_format
 from .repo import Repo
 
 logger = log_utils.getLogger(__name__)
@@ -1515,8 +1515,15 @@ class ReceivePackHandler(PackHandler):
 
         atomic = self.has_capability(CAPABILITY_ATOMIC)
 
-        def check_update(sha: ObjectID) -> bytes | None:
+        def check_update(sha: ObjectID, ref: Ref) -> bytes | None:
             """Status for an update that must not be attempted, else None."""
+            if ref != HEADREF and not (
+                ref.startswith(b"refs/") and check_ref_format(Ref(ref[5:]))
+            ):
+                # e.g. refs/heads//x, which RefsContainer still lets through
+                # with a warning: the same file as refs/heads/x but another
+                # key in packed-refs, so the old value is compared with nothing
+                return b"funny refname"
             if sha == zero_sha:
                 if CAPABILITY_DELETE_REFS not in self.capabilities():
                     raise GitProtocolError(
@@ -1559,7 +1566,7 @@ class ReceivePackHandler(PackHandler):
                     ref_status = hook_error
                 else:
                     try:
-                        ref_status = check_update(sha) or b"ok"
+                        ref_status = check_update(sha, ref) or b"ok"
                         if ref_status == b"ok":
                             try:
                                 current = self.repo.refs[ref]
@@ -1619,7 +1626,7 @@ class ReceivePackHandler(PackHandler):
                     yield (ref, hook_error)
                     continue
 
-                ref_status = check_update(sha)
+                ref_status = check_update(sha, ref)
                 if ref_status is None:
                     ref_status = apply_update(oldsha, sha, ref)
                 yield (ref, ref_status)
